@@ -1123,7 +1123,52 @@ func ruleX6(p *Prog, r *Report) {
 			r.Decide(!shared, R, cons, p.InstrPos(in), "field of the copy receives a fresh or cloned value", "the copy's field aliases the source's slice/map/pointer: mutating one container would change the other")
 		})
 	}
+	// entries of a fresh list built in a copy routine: an entry of interface / pointer type is the result of a copy
+	// call, never the source's own entry (a client storable may be a pointer to mutable state)
+	nE := 0
+	for _, top := range p.TopFuncs() {
+		isCopy := false
+		for _, pr := range copyPairs {
+			if top.Name() == pr[1] {
+				isCopy = true
+			}
+		}
+		if !isCopy || len(top.Params) == 0 || isHandleType(recvName(top)) || p.IsTestFile(top.Pos()) {
+			continue
+		}
+		eachInstr(top, func(in ssa.Instruction) {
+			st, ok := in.(*ssa.Store)
+			if !ok {
+				return
+			}
+			ia, ok := st.Addr.(*ssa.IndexAddr)
+			if !ok {
+				return
+			}
+			if _, fresh := canon(ia.X).(*ssa.MakeSlice); !fresh {
+				return
+			}
+			switch st.Val.Type().Underlying().(type) {
+			case *types.Interface, *types.Pointer:
+			default:
+				return
+			}
+			nE++
+			v := canon(st.Val)
+			shared := false
+			// a range value / indexed load of a list that is not fresh
+			if ld, ok := v.(*ssa.UnOp); ok && ld.Op == token.MUL {
+				if ia2, ok := ld.X.(*ssa.IndexAddr); ok {
+					if _, fresh := canon(ia2.X).(*ssa.MakeSlice); !fresh {
+						shared = true
+					}
+				}
+			}
+			r.Decide(!shared, R, "copied-entry:"+p.Name(top), p.InstrPos(in), "the entry of the copy's list is the result of a copy call", "an entry of the copy's list is the source's own entry (an interface or pointer value): a client storable that points to mutable state is then shared by source and copy, and mutating one changes the other")
+		})
+	}
 	r.Floor(R, "reference-typed fields assigned in copy routines", 4, n)
+	r.Floor(R, "list entries assigned in copy routines", 2, nE)
 }
 
 // directlyControlledByCall: one of the immediate controlling conditions of b contains a call matching pred.
